@@ -1,7 +1,7 @@
 (* model runners for the correspondence check of C19 *)
 From Coq Require Import List ZArith NArith String Bool.
 Import ListNotations.
-From Verif Require Import Common.V Common.Base Model.DataChannel.
+From Verif Require Import Common.V Common.Base Model.DataChannel Model.DcAccept.
 Open Scope Z_scope.
 
 Definition optN (z : Z) : option N := if z <? 0 then None else Some (Z.to_N z).
@@ -51,8 +51,29 @@ Inductive sin : Type :=
 | SSend (pre : string) (len dig : Z) (s : bool)
 | SOpen
 | SClose.
+(* the receiving application: sched says when the messages reach the receiver
+   relative to its OnDataChannel callback
+     0  after the receiver's side is open (the sender waited for it)
+     1  while the callback runs, handlers registered as its first statements
+     2  while the callback runs, handlers registered as its last statements
+   and replace_at > 0 makes the OnMessage handler (id 0) replace itself with a
+   second one (id 1) after that many invocations *)
 Inductive cin : Type :=
-  Cin (ord : bool) (mr mplt : Z) (lab pro : string) (neg : bool) (script : list sin).
+  Cin (ord : bool) (mr mplt : Z) (lab pro : string) (neg : bool) (script : list sin)
+      (sched replace_at : Z).
+
+Definition first_handler (replace_at : Z) : hnd :=
+  {| h_id := 0;
+     h_left := if replace_at <=? 0 then None else Some (Z.to_nat (replace_at - 1));
+     h_next := 1 |}.
+
+Definition recv_schedule {M} (neg : bool) (sched : Z) (h : hnd) (ms : list M) : list (rev M) :=
+  let reads := repeat RRead (List.length ms) in
+  if neg then RAcceptWait :: map RArrive ms ++ reads          (* handler there from the start *)
+  else if sched =? 1 then
+    RSetHandler h :: map RArrive ms ++ [RCallbackReturn; RAcceptWait] ++ reads
+  else if sched =? 2 then canonical M h ms
+  else [RSetHandler h; RCallbackReturn; RAcceptWait] ++ map RArrive ms ++ reads.
 
 Definition op_of (e : sin) : op pmsg :=
   match e with
@@ -68,13 +89,18 @@ Definition short_n_pion : N := 0.          (* pion/datachannel returns n = 0 wit
 Definition max_msg_default : N := 1073741823. (* defaultMaxSCTPMessageSize *)
 
 Definition run_chan (ch : cin) : V :=
-  let '(Cin ord mr mplt lab pro neg script) := ch in
+  let '(Cin ord mr mplt lab pro neg script sched replace_at) := ch in
   let p := mk_params ord mr mplt lab pro neg in
   let c0 := chan_init pmsg (list (msg pmsg)) [] in
   let c1 := run pmsg pm_len (list (msg pmsg)) lw lpeek lpop short_n_pion max_msg_default
               c0 (map op_of script) in
   let c2 := reads pmsg pm_len (list (msg pmsg)) lpeek lpop short_n_pion max_msg_default
               (drain_fuel pmsg pm_len (ch_stream c1)) c1 in
+  (* what readLoop reads (ch_delivered) is what reaches d.onMessage: the
+     receiver model decides which handler, if any, gets it *)
+  let h := first_handler replace_at in
+  let r0 := if neg then rcv_negotiated (msg pmsg) h else rcv_announced (msg pmsg) in
+  let rc := rrun (msg pmsg) r0 (recv_schedule neg sched h (ch_delivered c2)) in
   let reliable_ordered :=
     andb ord (match optN mr, optN mplt with None, None => true | _, _ => false end) in
   VL [ (* what the remote peer's channel reports (in-band channels only) *)
@@ -83,6 +109,8 @@ Definition run_chan (ch : cin) : V :=
        VL (map VB (ch_results c2));
        (* OnMessage sequence on the remote channel; the property speaks about
           reliable ordered channels, other kinds are left to the direct oracle *)
-       if reliable_ordered then VL (map Vmsg (ch_delivered c2)) else VL [] ].
+       if reliable_ordered then VL (map Vmsg (map snd (r_log rc))) else VL [];
+       (* and which handler each of them went to *)
+       if reliable_ordered then VL (map (fun p => VZ (fst p)) (r_log rc)) else VL [] ].
 
 Definition run_conn (chs : list cin) : V := VL (map run_chan chs).
